@@ -218,6 +218,15 @@ func DrawReadFrom(t *rapid.T, v View, pos int, o Opts) Action {
 		a.Zeros = rapid.SliceOfN(rapid.IntRange(0, 3), 1, 4).Draw(t, "readfrom.zeros")
 	}
 	a.EOFWithData = rapid.Bool().Draw(t, "readfrom.eofwithdata")
+	if v.Available > 0 && rapid.IntRange(0, 5).Draw(t, "readfrom.exactend") == 0 {
+		// the coincidence: the chunk that fills the buffer exactly (or misses it
+		// by one) is the one that carries the end of the source
+		a.Len = nonneg(v.Available + rapid.SampledFrom([]int{0, 0, -1, 1}).Draw(t, "readfrom.exactend.delta"))
+		a.EOFWithData = true
+		if rapid.Bool().Draw(t, "readfrom.exactend.onechunk") {
+			a.Chunks = nil
+		}
+	}
 	if o.SrcErr {
 		switch rapid.IntRange(0, 7).Draw(t, "readfrom.end") {
 		case 6:
@@ -279,7 +288,7 @@ func DrawAction(t *rapid.T, v View, pos int, o Opts) Action {
 type Letter struct {
 	Kind string
 	Rel  string // "0" "nil" "1" "a-1" "a" "a+1" "2s+3" "s+1"
-	Src  int    // readfrom: 0 plain source, 1 one-byte chunks + (0,nil) reads + data with EOF, 2 non-EOF error after the data, 3 stall (io.ErrNoProgress) after the data
+	Src  int    // readfrom: 0 plain source, 1 one-byte chunks + (0,nil) reads + data with EOF, 2 non-EOF error after the data, 3 stall (io.ErrNoProgress) after the data, 4 non-EOF error returned together with the last bytes
 }
 
 func (l Letter) String() string {
@@ -305,6 +314,7 @@ func Alphabet() []Letter {
 		a = append(a, Letter{Kind: KReadFrom, Rel: r, Src: 2})
 	}
 	a = append(a, Letter{Kind: KReadFrom, Rel: "1", Src: 3}, Letter{Kind: KReadFrom, Rel: "a", Src: 3})
+	a = append(a, Letter{Kind: KReadFrom, Rel: "a", Src: 4}, Letter{Kind: KReadFrom, Rel: "a+1", Src: 4})
 	for _, r := range []string{"0", "1", "s+1"} {
 		a = append(a, Letter{Kind: KThrough, Rel: r})
 	}
@@ -343,6 +353,8 @@ func (l Letter) Resolve(v View, pos int) Action {
 			a.SrcErr = true
 		case 3:
 			a.Stall = true
+		case 4:
+			a.SrcErr, a.EOFWithData = true, true
 		}
 	case KGrow:
 		a.N = n
